@@ -67,6 +67,7 @@ func (r *realizer) cur() *sbuild { return r.scs[len(r.scs)-1] }
 func (r *realizer) finish(sb *sbuild) error {
 	end := sb.a.pos()
 	sb.a.op(opcode.RET)
+	sb.a.pushInt(int64(1000 + sb.idx)) // never executed: makes the scripts of one program (and so their hashes) pairwise different
 	for _, f := range sb.frames {
 		if f.jmpAt >= 0 {
 			sb.loose = append(sb.loose, f.jmpAt*2)
@@ -311,7 +312,14 @@ steps:
 			// (random walker) append to a fresh array until the VM stops the script at the item limit
 			a.op(opcode.NEWARRAY0)
 			loop := a.pos()
-			a.op(opcode.DUP, opcode.PUSH0, opcode.APPEND)
+			a.op(opcode.DUP)
+			if s.A <= 1 {
+				a.op(opcode.PUSH0)
+			} else { // an array of A-1 elements: A items per round
+				a.pushInt(int64(s.A - 1))
+				a.op(opcode.NEWARRAY)
+			}
+			a.op(opcode.APPEND)
 			j := a.jmpL(opcode.JMPL)
 			a.fix(j, 0, loop)
 			p.ExpectFault = true
